@@ -11,7 +11,9 @@ From Cashews Require Import Base.Prelude.
 Open Scope Z_scope.
 
 Inductive cmd := Get (k : nat) | Put (k : nat) (v : Z) | Incr (k : nat) (d : Z) | Del (k : nat) | Sleep (n : Z)
-               | PutIf (k : nat) (v : Z) (want : bool).   (* set(..., exist=want): written only if the key's presence equals want *)
+               | PutIf (k : nat) (v : Z) (want : bool)    (* set(..., exist=want): written only if the key's presence equals want *)
+               | Touch (k : nat).                         (* expire(k, 0): a write command that changes no value; inside a block it takes the
+                                                             key's lock and pulls the stored value into the overlay (written back at commit) *)
 Inductive mode := Fast | Locked | Serial.
 Record block := { bmode : mode; bcmds : list cmd; braise : bool }.
 Inductive item := Direct (c : cmd) | Txn (b : block).
@@ -29,7 +31,8 @@ Definition upd {A} (t : nat -> A) (k : nat) (v : A) := fun x => if Nat.eqb x k t
 
 (* the local effect of an executed command, with the value a read-through returned *)
 Inductive lcmd := LPut (k : nat) (v : Z) | LIncr (k : nat) (d : Z) (base : option (option Z)) | LDel (k : nat)
-                | LPutIf (k : nat) (v : Z) (want hit : bool).     (* hit: the condition held and the value was written *)
+                | LPutIf (k : nat) (v : Z) (want hit : bool)      (* hit: the condition held and the value was written *)
+                | LTouch (k : nat) (base : option (option Z)).
 Definition lapply (od : list (nat * Z) * list nat) (c : lcmd) : list (nat * Z) * list nat :=
   let '(ov, dl) := od in
   match c with
@@ -42,6 +45,11 @@ Definition lapply (od : list (nat * Z) * list nat) (c : lcmd) : list (nat * Z) *
       (put ov k (cur + d), remk dl k)
   | LDel k => (remove ov k, if memk k dl then dl else k :: dl)
   | LPutIf k v _ hit => if hit then (put ov k v, remk dl k) else (ov, dl)
+  | LTouch k base =>
+      match lookup ov k with
+      | Some _ => (ov, dl)
+      | None => if memk k dl then (ov, dl) else match base with Some (Some b) => (put ov k b, dl) | _ => (ov, dl) end
+      end
   end.
 
 Inductive phase := PBody (pending : list cmd) | PCommitDel | PCommitSet | PUnlock.
@@ -61,13 +69,13 @@ Record cfg := { now : Z; store : nat -> option Z; locks : nat -> option (nat * Z
                 timeout : Z; attempts : nat;
                 wlog : list (nat * nat * wkind * list lcmd) }.   (* ghost: who wrote the store: task, token, kind, effects of the block *)
 
-Inductive bk := BGet | BPut | BIncr | BDel | BSetLock | BUnlock | BDelMany | BSetMany | BExists.
+Inductive bk := BGet | BPut | BIncr | BDel | BSetLock | BUnlock | BDelMany | BSetMany | BExists | BExpire.
 Inductive obs := Idle | Local | Back (b : bk) (k : nat) (r : option Z).
 Inductive event := Run (i : nat) (hint : nat) | Tick (dt : Z).
 
 Definition lock_key (m : mode) (k : nat) : nat := match m with Serial => O | _ => S k end.
-Definition is_write (c : cmd) := match c with Put _ _ | Incr _ _ | Del _ | PutIf _ _ _ => true | _ => false end.
-Definition cmd_key (c : cmd) := match c with Get k | Put k _ | Incr k _ | Del k | PutIf k _ _ => k | Sleep _ => O end.
+Definition is_write (c : cmd) := match c with Put _ _ | Incr _ _ | Del _ | PutIf _ _ _ | Touch _ => true | _ => false end.
+Definition cmd_key (c : cmd) := match c with Get k | Put k _ | Incr k _ | Del k | PutIf k _ _ | Touch k => k | Sleep _ => O end.
 Definition heldb (h : list (nat * Z)) (lk : nat) := existsb (fun x => Nat.eqb (fst x) lk) h.
 Definition lock_free (c : cfg) (lk : nat) := match locks c lk with Some (_, d) => d <=? now c | None => true end.
 Definition b2z (b : bool) : option Z := Some (if b then 1 else 0).
@@ -101,6 +109,9 @@ Definition direct (c : cfg) (i : nat) (t : task) (cm : cmd) (rest : list item) :
       let hit := Bool.eqb (isSomeZ (store c k)) want in
       ({| now := now c; store := if hit then upd (store c) k (Some v) else store c; locks := locks c; tasks := upd (tasks c) i (fin (b2z hit)); fresh := fresh c;
           timeout := timeout c; attempts := attempts c; wlog := wlog c ++ [(i, O, WDirect, [LPutIf k v want hit])] |}, Back BPut k (b2z hit))
+  | Touch k =>
+      ({| now := now c; store := store c; locks := locks c; tasks := upd (tasks c) i (fin None); fresh := fresh c;
+          timeout := timeout c; attempts := attempts c; wlog := wlog c ++ [(i, O, WDirect, [LTouch k (Some (store c k))])] |}, Back BExpire k None)
   end.
 
 (* the next command of a block's body, the lock (if one is needed) being held *)
@@ -136,6 +147,14 @@ Definition body_cmd (c : cfg) (i : nat) (t : task) (x : txn) (cm : cmd) (pend : 
       let '(ov, dl) := lapply (tov x, tdel x) (LPutIf k v want hit) in
       (set_task c i (with_cur t (Some (next ov dl (b2z hit) [LPutIf k v want hit]))),
        match known with Some _ => Local | None => Back BExists k (b2z (isSomeZ (store c k))) end)
+  | Touch k =>
+      (* TransactionBackend.expire: a key the overlay holds is re-timed locally, a key pending deletion is left alone,
+         otherwise the stored value is read and, if there is one, copied into the overlay *)
+      let through := match lookup (tov x) k with Some _ => false | None => negb (memk k (tdel x)) end in
+      let base := if through then Some (store c k) else None in
+      let '(ov, dl) := lapply (tov x, tdel x) (LTouch k base) in
+      (set_task c i (with_cur t (Some (next ov dl None [LTouch k base]))),
+       if through then Back BGet k (store c k) else Local)
   end.
 
 Definition fail_with (x : txn) (locked : bool) : txn :=
